@@ -22,7 +22,7 @@ pub const IDS: [&str; 14] = [
     "\\u{0}",
 ];
 
-fn uid(i: u8) -> EntityUid {
+pub fn uid(i: u8) -> EntityUid {
     let (t, id) = ENTS[i as usize % ENTS.len()];
     EntityUid::from_str(&format!("{t}::\"{id}\"")).expect("uid")
 }
@@ -85,13 +85,13 @@ pub struct Pol {
 }
 
 impl Pol {
-    fn is_template(&self) -> bool {
+    pub fn is_template(&self) -> bool {
         matches!(self.pc, ScopeC::EqSlot | ScopeC::InSlot | ScopeC::IsInSlot(_)) || matches!(self.rc, ScopeC::EqSlot | ScopeC::InSlot | ScopeC::IsInSlot(_))
     }
-    fn slots(&self) -> (bool, bool) {
+    pub fn slots(&self) -> (bool, bool) {
         (matches!(self.pc, ScopeC::EqSlot | ScopeC::InSlot | ScopeC::IsInSlot(_)), matches!(self.rc, ScopeC::EqSlot | ScopeC::InSlot | ScopeC::IsInSlot(_)))
     }
-    fn text(&self) -> String {
+    pub fn text(&self) -> String {
         let sc = |var: &str, c: &ScopeC| -> String {
             match c {
                 ScopeC::Any => var.to_string(),
@@ -190,20 +190,20 @@ pub struct Case {
 // ---------------------------------------------------------------- reference model
 
 #[derive(Clone, Debug, PartialEq)]
-enum Item {
+pub enum Item {
     Static(Pol),
     Template(Pol),
     Link(u8, Option<u8>, Option<u8>), // template id index, bindings
 }
 
 #[derive(Clone, Debug, Default)]
-struct Model {
-    items: BTreeMap<u8, Item>,
-    ents: BTreeMap<u8, EntRec>,
+pub struct Model {
+    pub items: BTreeMap<u8, Item>,
+    pub ents: BTreeMap<u8, EntRec>,
 }
 
 #[derive(Clone, Copy, Debug, PartialEq, Eq, PartialOrd, Ord)]
-enum Tri {
+pub enum Tri {
     Sat,
     Unsat,
     Err,
@@ -279,7 +279,7 @@ impl Model {
             }
         }
     }
-    fn eval(&self, pol: &Pol, sp: Option<u8>, sr: Option<u8>, q: &Req) -> Tri {
+    pub fn eval(&self, pol: &Pol, sp: Option<u8>, sr: Option<u8>, q: &Req) -> Tri {
         // scope && when.. && !unless.., left to right with short circuit
         if !self.scope(&pol.pc, q.p, sp) {
             return Tri::Unsat;
@@ -353,7 +353,7 @@ impl Model {
 
 // ---------------------------------------------------------------- real objects
 
-fn mk_entity(r: &EntRec) -> Entity {
+pub fn mk_entity(r: &EntRec) -> Entity {
     let mut attrs: HashMap<String, RestrictedExpression> = HashMap::new();
     if let Some(f) = r.flag {
         attrs.insert("flag".into(), RestrictedExpression::new_bool(f));
@@ -365,7 +365,7 @@ fn mk_entity(r: &EntRec) -> Entity {
     Entity::new(uid(r.idx), attrs, parents).expect("literal attributes evaluate")
 }
 
-fn mk_request(q: &Req) -> Option<Request> {
+pub fn mk_request(q: &Req) -> Option<Request> {
     let mut pairs: Vec<(String, RestrictedExpression)> = vec![];
     if let Some(k) = q.k {
         pairs.push(("k".into(), RestrictedExpression::new_bool(k)));
@@ -378,19 +378,19 @@ fn mk_request(q: &Req) -> Option<Request> {
 }
 
 /// the id as spelled by the caller (Display escapes quotes and backslashes)
-fn raw_id(p: &PolicyId) -> String {
+pub fn raw_id(p: &PolicyId) -> String {
     let s: &str = p.as_ref();
     s.to_string()
 }
 
-fn err_id(e: &AuthorizationError) -> String {
+pub fn err_id(e: &AuthorizationError) -> String {
     match e {
         AuthorizationError::PolicyEvaluationError(pe) => raw_id(pe.policy_id()),
     }
 }
 
 /// observed response in comparable form
-fn observe(auth: &Authorizer, req: &Request, ps: &PolicySet, store: &Entities) -> (bool, BTreeSet<String>, BTreeSet<String>, usize) {
+pub fn observe(auth: &Authorizer, req: &Request, ps: &PolicySet, store: &Entities) -> (bool, BTreeSet<String>, BTreeSet<String>, usize) {
     let resp = auth.is_authorized(req, ps, store);
     let reasons: BTreeSet<String> = resp.diagnostics().reason().map(raw_id).collect();
     let errs: Vec<String> = resp.diagnostics().errors().map(err_id).collect();
@@ -770,7 +770,7 @@ fn gen_atom(rng: &mut Rng) -> Atom {
     }
 }
 
-fn gen_pol(rng: &mut Rng, template: bool) -> Pol {
+pub fn gen_pol(rng: &mut Rng, template: bool) -> Pol {
     loop {
         let pc = gen_scope(rng, template);
         let rc = gen_scope(rng, template);
@@ -788,7 +788,7 @@ fn gen_pol(rng: &mut Rng, template: bool) -> Pol {
     }
 }
 
-fn gen_ent(rng: &mut Rng, idx: u8) -> EntRec {
+pub fn gen_ent(rng: &mut Rng, idx: u8) -> EntRec {
     // parents only among higher indices of the same kind (actions among actions): no cycles here
     let mut parents = vec![];
     let hi = if idx >= N_NONACT { ENTS.len() as u8 } else { N_NONACT };
@@ -800,7 +800,7 @@ fn gen_ent(rng: &mut Rng, idx: u8) -> EntRec {
     EntRec { idx, parents, flag: if rng.pct(65) { Some(rng.pct(50)) } else { None }, n: if rng.pct(65) { Some(rng.below(5) as i64 - 1) } else { None } }
 }
 
-fn gen_req(rng: &mut Rng) -> Req {
+pub fn gen_req(rng: &mut Rng) -> Req {
     Req {
         p: rng.below(N_NONACT as usize) as u8,
         a: 8 + rng.below(3) as u8,
